@@ -15,14 +15,14 @@ from pymeeus.Angle import Angle
 from pymeeus.Epoch import Epoch
 from pymeeus import Coordinates as C
 
-from ..core import Violation, Task
+from ..core import Violation, Task, sub_seed
 from .. import strategies as S
 from ..oracles import kepler as K
 
 PROPERTY = "C11"
 LEVEL = "exploration"
 MANIFEST = {
-    "level_text": "Randomised search (Hypothesis, boundary-aware generators, ~130k cases quick / 5M thorough) over eccentricity, mean anomaly, semi-major axis, argument of perihelion and distance triangles; each case is decided by the defining relation itself or by an independent two-body model. Finds violations; does not prove absence.",
+    "level_text": "Randomised search (Hypothesis, boundary-aware generators, ~130k cases quick / 5M thorough) over eccentricity, mean anomaly, semi-major axis, argument of perihelion and distance triangles; each case is decided by the defining relation itself or by an independent two-body model. Kepler's equation is also evaluated on a deterministic lattice over the whole (e, M) rectangle. Finds violations; does not prove absence.",
     "level_note": "Trusts math.sin/cos/atan2 to a few ulp, the reference Kepler/Barker solvers and the AGM perimeter (self-tested on every run against their defining equations, a quadrature and literal anchors from Meeus ch. 30/33), Gauss's constant 0.01720209895.",
     "technique": "property-based testing (Hypothesis) against defining residuals and an independent two-body reference model",
 }
@@ -37,7 +37,8 @@ RULE = ("Hypothesis-generated cases, seven clauses. kepler: (e, M) with e in [0,
         "solver. Non-trivial: e > 0.9, or |M| > 360, or M within 1e-6 deg of a multiple of 180 "
         "(kepler); e > 0.9 (speed, length, node); always for length_switch; phase angle within "
         "1 deg of 0 or 180 or side ratio > 10 (phase); |tan(v/2)| > 3 (parabolic node). "
-        "Distinct = distinct case dict.")
+        "Distinct = distinct case dict."
+        " kepler_grid: the whole rectangle e in [0, 0.999999] x M in [-180, 180) deg on a 0.001 x 1 deg lattice (0.00025 x 0.25 deg in the thorough tier) with a seed-derived phase and whole turns (0, +-1, +2, -10) added; every lattice point is one evaluation and counts as non-trivial.")
 ASSUMPTIONS = [
     "Kepler residual E - e sin E - M (degrees, reduced to [-180, 180]) must be <= 5e-8 as the "
     "property states; it is evaluated in double precision (error < 1e-12 deg)",
@@ -282,7 +283,23 @@ def body_node_parabolic(case):
     return {"labels": labels, "nontrivial": abs(s) > 3, "show": {"dt_days": dt, "v": v}}
 
 
-CLAUSES = {"kepler": body_kepler, "speed": body_speed, "length": body_length,
+def body_kepler_grid(case):
+    """One eccentricity, mean anomalies m0, m0 + step, ...: the whole (e, M) rectangle is covered at a
+    resolution of 0.001 x 1 degree, so that a region of the size of a solver's switch-over band cannot
+    fall between the samples."""
+    e, m0, step, n, turns = case["e"], case["m0"], case["step"], case["n"], case["turns"]
+    worst = 0.0
+    for i in range(n):
+        M = m0 + i * step + 360.0 * turns[i % len(turns)]
+        info = body_kepler({"e": e, "M": M})
+        worst = max(worst, abs(info["show"]["residual_deg"]))
+    labels = {"grid_points": n}
+    if e > 0.9:
+        labels["grid_e>0.9"] = n
+    return {"n": n, "nt": n, "labels": labels, "show": {"e": e, "worst_residual_deg": worst}}
+
+
+CLAUSES = {"kepler": body_kepler, "kepler_grid": body_kepler_grid, "speed": body_speed, "length": body_length,
            "length_switch": body_length_switch, "phase": body_phase, "node": body_node,
            "node_parabolic": body_node_parabolic}
 
@@ -390,7 +407,20 @@ def tasks(tier, seed):
         k = 1 if tier == "quick" else 2
         for sh in range(shards * k):
             out.append(Task("t_given", clause=clause, shard=sh, n=n * mult // k))
+    for sh in range(8):
+        out.append(Task("t_grid", shard=sh, of=8, seed=seed, fine=(tier != "quick")))
     return out
+
+
+def t_grid(rec, shard, of, seed, fine):
+    ne = 4000 if fine else 1000
+    nm = 1440 if fine else 360
+    pe = (sub_seed(seed, "C11", "grid", "e") % 1009) / 1009.0
+    pm = (sub_seed(seed, "C11", "grid", "M") % 1013) / 1013.0
+    for k in range(shard, ne, of):
+        e = min(EMAX, (k + pe) * (EMAX / ne))
+        rec.case("kepler_grid", {"e": e, "m0": -180.0 + pm * 360.0 / nm, "step": 360.0 / nm, "n": nm,
+                                 "turns": [0, 0, 0, 2, -10, 1, -1]})
 
 
 def t_given(rec, clause, shard, n):
